@@ -42,6 +42,8 @@ class Bail(Exception):
     pass
 
 
+NONNULL_CONSTS = set()     # dumps of `constants.NAME` expressions whose value is a literal other than None (filled by the loader)
+CLASS_METHODS = {}    # class name (defined once in the package) -> {method: (params without self, number of defaults)}
 SIGS = {}      # simple name -> parameter list, for classes (constructor, without self) and module-level functions defined once in the package
 
 
@@ -65,6 +67,27 @@ def build_signatures(trees):
                 init = [m for m in st.body if isinstance(m, ast.FunctionDef) and m.name == "__init__"]
                 out[st.name] = params_of(init[0], True) if len(init) == 1 else None
     return {k: v for k, v in out.items() if seen[k] == 1 and v is not None}
+
+
+def build_class_methods(trees):
+    seen, out = {}, {}
+    for t in trees:
+        for st in t.body:
+            if isinstance(st, ast.ClassDef):
+                seen[st.name] = seen.get(st.name, 0) + 1
+                tab = {}
+                for m in st.body:
+                    if isinstance(m, (ast.FunctionDef, ast.AsyncFunctionDef)):
+                        a = m.args
+                        if a.vararg or a.kwarg or a.posonlyargs or a.kwonlyargs:
+                            continue
+                        decs = [_dec(d) for d in m.decorator_list]
+                        if "property" in decs or any(d.endswith("setter") for d in decs):
+                            continue
+                        ps = [x.arg for x in a.args]
+                        tab[m.name] = (ps if "staticmethod" in decs else ps[1:], len(a.defaults))
+                out[st.name] = tab
+    return {k: v for k, v in out.items() if seen[k] == 1}
 
 
 # ---------------------------------------------------------------------------------------------------------------------
@@ -154,6 +177,58 @@ def _has_call(e):
 
 def _is_const_true(e):
     return isinstance(e, ast.Constant) and bool(e.value) is True and e.value is not None
+
+
+def _is_chain(e):
+    while isinstance(e, ast.Attribute):
+        e = e.value
+    return isinstance(e, ast.Name)
+
+
+def _fold_test(t):
+    """Constant sub-tests of a condition (a helper inlined with literal arguments: `'list' is None or path`) are evaluated; only
+    the truth value of the whole matters.  Returns `t` itself when nothing changes."""
+    if isinstance(t, ast.UnaryOp) and isinstance(t.op, ast.Not):
+        o = _fold_test(t.operand)
+        if isinstance(o, ast.Constant):
+            return ast.copy_location(ast.Constant(value=not o.value), t)
+        if o is not t.operand:
+            return ast.copy_location(ast.UnaryOp(op=ast.Not(), operand=o), t)
+        return t
+    if isinstance(t, ast.Compare) and len(t.ops) == 1 and isinstance(t.left, ast.Constant) and isinstance(t.comparators[0], ast.Constant):
+        a, b, op = t.left.value, t.comparators[0].value, t.ops[0]
+        if isinstance(op, (ast.Is, ast.IsNot)) and (a is None or b is None or isinstance(a, bool) or isinstance(b, bool)):
+            v = (a is b) if (a is None or b is None or (isinstance(a, bool) and isinstance(b, bool))) else False
+            return ast.copy_location(ast.Constant(value=v if isinstance(op, ast.Is) else not v), t)
+        if isinstance(op, (ast.Eq, ast.NotEq)) and type(a) is type(b):
+            return ast.copy_location(ast.Constant(value=(a == b) if isinstance(op, ast.Eq) else (a != b)), t)
+        return t
+    if isinstance(t, ast.BoolOp):
+        is_or = isinstance(t.op, ast.Or)
+        vals = [_fold_test(v) for v in t.values]
+        out = []
+        changed = any(a is not b for a, b in zip(vals, t.values))
+        for v in vals:
+            if isinstance(v, ast.Constant):
+                if bool(v.value) == is_or:
+                    # decides the whole condition; what precedes has been evaluated already
+                    out.append(v)
+                    changed = changed or v is not vals[-1]
+                    break
+                changed = True          # neutral element
+                continue
+            out.append(v)
+        if out and isinstance(out[-1], ast.Constant) and len(out) > 1 and not any(_has_call(x) for x in out[:-1]):
+            out = [out[-1]]
+            changed = True
+        if not changed:
+            return t
+        if not out:
+            return ast.copy_location(ast.Constant(value=not is_or), t)
+        if len(out) == 1:
+            return out[0]
+        return ast.copy_location(ast.BoolOp(op=t.op, values=out), t)
+    return t
 
 
 def always_exits(stmts):
@@ -354,6 +429,10 @@ def eval_order(node):
 def _inert_call(c):
     """Logging calls and pure builtins over their arguments: no effect on anything the analysis models."""
     f = c.func
+    if isinstance(f, ast.Attribute) and isinstance(f.value, ast.Name) and f.value.id == "exceptions" and f.attr[:1].isupper() and f.attr.endswith(("Error", "Exception")):
+        return True          # building an exception object of the package
+    if isinstance(f, ast.Attribute) and f.attr == "format" and isinstance(f.value, ast.Constant) and isinstance(f.value.value, str):
+        return True
     if isinstance(f, ast.Name) and f.id in PURE_BUILTINS and not c.keywords:
         return True
     while isinstance(f, ast.Attribute):
@@ -364,12 +443,34 @@ def _inert_call(c):
 def _reads(e):
     """(names read, reads mutable state: attribute/subscript loads or any call)."""
     names, heap = set(), False
-    for n in ast.walk(e):
+    stack = [e]
+    while stack:
+        n = stack.pop()
+        if isinstance(n, ast.Call) and _exc_ctor(n):
+            # building an exception object of the package reads nothing but its arguments
+            stack.extend(n.args)
+            stack.extend(k.value for k in n.keywords)
+            continue
         if isinstance(n, ast.Name):
             names.add(n.id)
         elif isinstance(n, (ast.Attribute, ast.Subscript, ast.Call, ast.Await)):
             heap = True
+        stack.extend(ast.iter_child_nodes(n))
     return names, heap
+
+
+def _exc_ctor(c):
+    f = c.func
+    return isinstance(f, ast.Attribute) and isinstance(f.value, ast.Name) and f.value.id == "exceptions" and f.attr[:1].isupper() and f.attr.endswith(("Error", "Exception"))
+
+
+def _has_effect(e):
+    for n in ast.walk(e):
+        if isinstance(n, (ast.Await, ast.Yield, ast.YieldFrom, ast.NamedExpr)):
+            return True
+        if isinstance(n, ast.Call) and not _inert_call(n):
+            return True
+    return False
 
 
 def _stmt_effects(st):
@@ -391,8 +492,9 @@ def _stmt_effects(st):
 
 # ---------------------------------------------------------------------------------------------------------------------
 class FuncCanon(object):
-    def __init__(self, fn, modconsts, stats, clsmethods=None):
+    def __init__(self, fn, modconsts, stats, clsmethods=None, attrtypes=None):
         self.clsmethods = clsmethods or {}
+        self.attrtypes = attrtypes or {}     # instance attribute -> package class it is always constructed from
         self.fn = fn
         self.modconsts = modconsts       # names of imported modules / module-level names (stable operands)
         self.stats = stats
@@ -470,7 +572,7 @@ class FuncCanon(object):
         belongs to, with no other assignment of the name in between): each assignment-and-its-reads gets its own name, so the
         single-assignment rewrites apply to each of them."""
         for v, stores in sorted(self.stores.items()):
-            if len(stores) < 2 or v in self.params or v in self.captured or "__w" in v:
+            if len(stores) < 2 or v in self.params or v in self.captured:
                 continue
             if not all(isinstance(s_, ast.Name) for s_ in stores):
                 continue
@@ -492,6 +594,8 @@ class FuncCanon(object):
                             # the value side of the next assignment still belongs to this web
                             region.append(nxt.value)
                             break
+                        if any(isinstance(n, ast.Name) and n.id == v and not isinstance(n.ctx, ast.Load) for n in ast.walk(nxt)):
+                            break          # a nested re-assignment: the reads from here on belong to other assignments (or to none: checked below)
                         region.append(nxt)
                     mine = []
                     for r in region:
@@ -500,7 +604,7 @@ class FuncCanon(object):
                                 if isinstance(n.ctx, ast.Load):
                                     mine.append(n)
                                 else:
-                                    ok = False      # a nested re-assignment inside the region
+                                    ok = False
                     for n in mine:
                         if id(n) in claimed:
                             ok = False
@@ -508,8 +612,15 @@ class FuncCanon(object):
                     webs.append((st.targets[0], mine))
             if not ok or plain != len(stores) or any(id(l) not in claimed for l in loads):
                 continue
-            for idx, (store, mine) in enumerate(webs[1:], start=2):
-                new = "%s__w%d" % (v, idx)
+            if len(webs) < 2:
+                continue
+            base = v.split("__w")[0]
+            idx = 1
+            for (store, mine) in webs[1:]:
+                idx += 1
+                while ("%s__w%d" % (base, idx)) in self.stores or ("%s__w%d" % (base, idx)) in self.loads:
+                    idx += 1
+                new = "%s__w%d" % (base, idx)
                 store.id = new
                 for n in mine:
                     n.id = new
@@ -523,13 +634,19 @@ class FuncCanon(object):
         changed = False
         for blk in _all_blocks(self.fn):
             top = blk is self.fn.body
-            if self.star(blk) or self.tuplepush(blk) or self.unroll(blk) or self.lockwith(blk) or self.flagloop(blk) or self.thread(blk) or self.deadstore(blk) or self.kw(blk) or self.split(blk) or self.retsplit(blk) or self.forelse(blk) or self.rot(blk) or self.brk(blk, top) or self.wtop(blk) or self.ifs(blk) or self.sink(blk) or self.unpack(blk) or self.fwd(blk):
+            if self.star(blk) or self.callsel(blk) or self.tuplepush(blk) or self.unroll(blk) or self.lockwith(blk) or self.flagloop(blk) or self.thread(blk) or self.deadstore(blk) or self.kw(blk) or self.split(blk) or self.retsplit(blk) or self.forelse(blk) or self.dowhile(blk) or self.withsink(blk) or self.testsplit(blk) or self.rot(blk) or self.brk(blk, top) or self.wtop(blk) or self.ifs(blk) or self.sink(blk) or self.unpack(blk) or self.fwd(blk):
                 return True
         return changed
 
     # -- NOT / ELSE / GUARD / IFEXP --------------------------------------------------------------------------------
     def ifs(self, blk):
         for i, st in enumerate(blk):
+            if isinstance(st, (ast.If, ast.While)):
+                ft = _fold_test(st.test)
+                if ft is not st.test:
+                    st.test = ft
+                    self.bump("CONSTIF")
+                    return True
             if not isinstance(st, ast.If):
                 continue
             t = st.test
@@ -963,6 +1080,78 @@ class FuncCanon(object):
                             n.args[k:k + 1] = a.value.elts
                             self.bump("STAR")
                             return True
+                    # self.<attr>.<method>(*v): the attribute is an instance of a package class whose method takes exactly n arguments
+                    ps = self._attr_method_params(n.func)
+                    if ps is not None and len(n.args) == 1 and not n.keywords and isinstance(n.args[0], ast.Starred) and isinstance(n.args[0].value, ast.Name) \
+                            and ps[1] == 0 and ps[0] and n.args[0].value.id not in self.captured:
+                        v = n.args[0].value.id
+                        n.args[:] = [ast.copy_location(ast.Subscript(value=ast.Name(id=v, ctx=ast.Load()), slice=ast.Constant(value=i), ctx=ast.Load()), n.args[0]) for i in range(len(ps[0]))]
+                        ast.fix_missing_locations(n)
+                        self.bump("STAR")
+                        return True
+        return False
+
+    def _attr_method_params(self, f):
+        a = self.fn.args
+        first = a.args[0].arg if a.args and not any(_dec(d) == "staticmethod" for d in self.fn.decorator_list) else None
+        if first and isinstance(f, ast.Attribute) and isinstance(f.value, ast.Attribute) and isinstance(f.value.value, ast.Name) and f.value.value.id == first \
+                and not self.stores.get(first) and f.value.attr in self.attrtypes:
+            return CLASS_METHODS.get(self.attrtypes[f.value.attr], {}).get(f.attr)
+        return None
+
+    # -- CALLSEL ---------------------------------------------------------------------------------------------------
+    def callsel(self, blk):
+        """`f = self.a.m1 if c else self.a.m2 ; ... f(x) ...`  ->  `... (self.a.m1(x) if c else self.a.m2(x)) ...`   when f is bound
+        once, only ever called, c is call-free over names that never change, and the objects the methods are taken from are
+        not rebound in this function (looking a method up early or late then gives the same bound method)."""
+        a = self.fn.args
+        first = a.args[0].arg if a.args and not any(_dec(d) == "staticmethod" for d in self.fn.decorator_list) else None
+        if not first or self.stores.get(first):
+            return False
+        for i, st in enumerate(blk):
+            if not (isinstance(st, ast.Assign) and len(st.targets) == 1 and isinstance(st.targets[0], ast.Name) and isinstance(st.value, ast.IfExp)):
+                continue
+            f = st.targets[0].id
+            if len(self.stores.get(f, ())) != 1 or f in self.captured or f in self.params:
+                continue
+            ie = st.value
+
+            def chain(e):
+                parts = []
+                while isinstance(e, ast.Attribute):
+                    parts.append(e.attr)
+                    e = e.value
+                return parts[::-1] if isinstance(e, ast.Name) and e.id == first and parts else None
+            ca, cb = chain(ie.body), chain(ie.orelse)
+            if ca is None or cb is None or not self.pure_stable(ie.test):
+                continue
+            # no store to any prefix attribute of the chains in this function
+            prefixes = set(x for c in (ca, cb) for x in c[:-1])
+            rebound = False
+            for n, _ins in _fn_nodes(self.fn):
+                if isinstance(n, ast.Attribute) and isinstance(n.ctx, (ast.Store, ast.Del)) and n.attr in prefixes | {ca[-1], cb[-1]}:
+                    rebound = True
+            if rebound:
+                continue
+            loads = self.loads.get(f, [])
+            calls = {}
+            for n, _ins in _fn_nodes(self.fn):
+                if isinstance(n, ast.Call) and isinstance(n.func, ast.Name) and n.func.id == f:
+                    calls[id(n.func)] = n
+            if not loads or any(id(l) not in calls for l in loads):
+                continue
+            if any(any(isinstance(x, ast.Starred) for x in c.args) or any(k.arg is None for k in c.keywords) for c in calls.values()):
+                continue
+            import copy
+            for c in list(calls.values()):
+                alt = ast.Call(func=copy.deepcopy(ie.orelse), args=copy.deepcopy(c.args), keywords=copy.deepcopy(c.keywords))
+                new = ast.IfExp(test=copy.deepcopy(ie.test), body=ast.Call(func=copy.deepcopy(ie.body), args=c.args, keywords=c.keywords), orelse=alt)
+                ast.copy_location(new, c)
+                _replace_node(self.fn, c, new)
+                ast.fix_missing_locations(new)
+            del blk[i]
+            self.bump("CALLSEL")
+            return True
         return False
 
     # -- RETSPLIT --------------------------------------------------------------------------------------------------
@@ -1152,6 +1341,167 @@ class FuncCanon(object):
             return True
         return False
 
+    # -- TESTSPLIT -------------------------------------------------------------------------------------------------
+    def _decide(self, test, v, e):
+        """truth of `test` (a test of the name v alone) when v has just been bound to expression e; None if unknown."""
+        def none_ness(x):
+            if isinstance(x, ast.Constant):
+                return x.value is None
+            if isinstance(x, (ast.Tuple, ast.List, ast.Dict, ast.Set, ast.JoinedStr, ast.ListComp, ast.DictComp, ast.SetComp, ast.GeneratorExp, ast.Lambda)):
+                return False
+            if isinstance(x, ast.Call) and isinstance(x.func, ast.Attribute) and isinstance(x.func.value, ast.Name) and x.func.value.id == "exceptions" \
+                    and "exceptions" in self.modconsts and not self.stores.get("exceptions") and x.func.attr[:1].isupper():
+                return False           # instantiating an exception class of the package
+            return None
+
+        def truth(x):
+            if isinstance(x, ast.Constant):
+                return bool(x.value)
+            if isinstance(x, (ast.Tuple, ast.List, ast.Set)) and not any(isinstance(y, ast.Starred) for y in x.elts):
+                return bool(x.elts)
+            if isinstance(x, ast.Dict):
+                return bool(x.keys)
+            if none_ness(x) is False and isinstance(x, ast.Call):
+                return True            # exception instances are truthy
+            return None
+        t = test
+        pol = True
+        while isinstance(t, ast.UnaryOp) and isinstance(t.op, ast.Not):
+            t, pol = t.operand, not pol
+        if isinstance(t, ast.Name) and t.id == v:
+            r = truth(e)
+            return None if r is None else (r == pol)
+        if isinstance(t, ast.Compare) and len(t.ops) == 1 and isinstance(t.left, ast.Name) and t.left.id == v and isinstance(t.comparators[0], ast.Constant) and t.comparators[0].value is None \
+                and isinstance(t.ops[0], (ast.Is, ast.IsNot)):
+            r = none_ness(e)
+            if r is None:
+                return None
+            return (r if isinstance(t.ops[0], ast.Is) else not r) == pol
+        return None
+
+    def testsplit(self, blk):
+        """`v = X if c else Y` ; `if T(v): S1 else: S2`   ->   `if c: v = X ; <S1 or S2> else: v = Y ; <S1 or S2>`   when T tests v
+        alone and both X and Y decide it (or are conditionals themselves, split in turn): the decision taken when v was computed
+        is the decision the following test rediscovers."""
+        import copy
+        for i in range(len(blk) - 1):
+            st, nx = blk[i], blk[i + 1]
+            if not (isinstance(st, ast.Assign) and len(st.targets) == 1 and isinstance(st.targets[0], ast.Name) and isinstance(st.value, ast.IfExp) and isinstance(nx, ast.If)):
+                continue
+            v = st.targets[0].id
+            if v in self.captured:
+                continue
+            ie = st.value
+            if any(isinstance(n, ast.Name) and n.id == v for n in ast.walk(ie)):
+                continue
+            arms = []
+            for e in (ie.body, ie.orelse):
+                d = self._decide(nx.test, v, e)
+                if d is None and not isinstance(e, ast.IfExp):
+                    arms = None
+                    break
+                arms.append((e, d))
+            if not arms or all(d is None for _e, d in arms):
+                continue
+            # `if T: <leaves>` followed by the rest of the block: the rest is the else-arm
+            absorb = not nx.orelse and always_exits(nx.body) and len(blk) > i + 2 and _size(blk[i + 2:]) <= 12
+            if absorb:
+                nx = ast.copy_location(ast.If(test=nx.test, body=nx.body, orelse=blk[i + 2:]), nx)
+            if _size(nx.body) + _size(nx.orelse) > 60:
+                continue
+            new_arms = []
+            for e, d in arms:
+                asg = ast.copy_location(ast.Assign(targets=[ast.Name(id=v, ctx=ast.Store())], value=e), st)
+                if d is None:
+                    cont = [copy.deepcopy(nx)]
+                else:
+                    cont = copy.deepcopy(nx.body if d else nx.orelse)
+                new_arms.append([asg] + cont)
+            new = ast.copy_location(ast.If(test=ie.test, body=new_arms[0], orelse=new_arms[1]), st)
+            ast.fix_missing_locations(new)
+            if absorb:
+                blk[i:] = [new]
+            else:
+                blk[i:i + 2] = [new]
+            self.bump("TESTSPLIT")
+            return True
+        return False
+
+    # -- WITHSINK --------------------------------------------------------------------------------------------------
+    def withsink(self, blk):
+        """`with lock: B` ; `if v: return v`   ->   `with lock: B ; if v: return v`     (v local, the test and the value call-free,
+        the context managers plain objects such as locks, which do not swallow exceptions): returning from inside the block
+        releases the lock just the same."""
+        for i in range(len(blk) - 1):
+            w, nx = blk[i], blk[i + 1]
+            if not isinstance(w, (ast.With, ast.AsyncWith)) or not isinstance(nx, ast.If) or nx.orelse or len(nx.body) != 1 or not isinstance(nx.body[0], ast.Return):
+                continue
+            if not all(it.optional_vars is None and _is_chain(it.context_expr) for it in w.items):
+                continue
+            exprs = [nx.test] + ([nx.body[0].value] if nx.body[0].value is not None else [])
+            if any(_has_call(e) or any(isinstance(n, (ast.Attribute, ast.Subscript, ast.Await, ast.Yield, ast.YieldFrom, ast.NamedExpr)) for n in ast.walk(e)) for e in exprs):
+                continue
+            names = {n.id for e in exprs for n in ast.walk(e) if isinstance(n, ast.Name)}
+            if any(n in self.captured or (n not in self.params and not self.stores.get(n)) for n in names):
+                continue             # only locals / parameters
+            if not w.body or always_exits(w.body):
+                continue
+            w.body.append(nx)
+            del blk[i + 1]
+            self.bump("WITHSINK")
+            return True
+        return False
+
+    # -- DOWHILE ---------------------------------------------------------------------------------------------------
+    def dowhile(self, blk):
+        """`v = None ; while v != K: B`  ->  `v = None ; while True: B ; if not (v != K): break`   when the test is decided
+        true on entry by the constant just assigned (K a literal or a non-None package constant), B has no `continue`."""
+        for i in range(len(blk) - 1):
+            a, lp = blk[i], blk[i + 1]
+            if not (isinstance(a, ast.Assign) and len(a.targets) == 1 and isinstance(a.targets[0], ast.Name) and isinstance(a.value, ast.Constant)):
+                continue
+            if not (isinstance(lp, ast.While) and not lp.orelse and isinstance(lp.test, ast.Compare) and len(lp.test.ops) == 1):
+                continue
+            v, c0 = a.targets[0].id, a.value.value
+            t = lp.test
+            if isinstance(t.left, ast.Name) and t.left.id == v:
+                other = t.comparators[0]
+            elif isinstance(t.comparators[0], ast.Name) and t.comparators[0].id == v:
+                other = t.left
+            else:
+                continue
+            if isinstance(other, ast.Constant):
+                k_known, k = True, other.value
+            elif _dump(other) in NONNULL_CONSTS:
+                k_known, k = False, None          # some value that is not None
+            else:
+                continue
+            op = t.ops[0]
+            if k_known:
+                same = (c0 is k) if (c0 is None or k is None) else (type(c0) is type(k) and c0 == k)
+                if not (c0 is None or k is None or type(c0) is type(k)):
+                    continue
+            else:
+                if c0 is not None:
+                    continue
+                same = False
+            if isinstance(op, (ast.NotEq, ast.IsNot)):
+                enters = not same
+            elif isinstance(op, (ast.Eq, ast.Is)):
+                enters = same
+            else:
+                continue
+            if not enters or _contains_own(lp.body, ast.Continue):
+                continue
+            brk = ast.If(test=negate(lp.test), body=[ast.Break()], orelse=[])
+            ast.copy_location(brk, lp)
+            ast.fix_missing_locations(brk)
+            lp.test = ast.copy_location(ast.Constant(value=True), lp.test)
+            lp.body = lp.body + [brk]
+            self.bump("DOWHILE")
+            return True
+        return False
+
     # -- UNPACK ----------------------------------------------------------------------------------------------------
     def unpack(self, blk):
         for i in range(len(blk) - 1):
@@ -1243,6 +1593,12 @@ class FuncCanon(object):
                         earlier.add(id(n_))
                 if all(isinstance(x, ast.Name) and id(x) in earlier for x in self.stores[e.id]):
                     is_ret_copy = True
+                else:
+                    # ... or no assignment of v between the copy and the last statement of this block that reads w
+                    last = max(k for k, s_ in enumerate(later) if any(n_ is l for l in loads for n_ in ast.walk(s_)))
+                    between = set(id(n_) for s_ in later[:last + 1] for n_ in ast.walk(s_))
+                    if not any(id(x) in between for x in self.stores[e.id]) and all(isinstance(x, ast.Name) for x in self.stores[e.id]):
+                        is_ret_copy = True
             if (self.pure_stable(e) or is_ret_copy) and (len(loads) == 1 or _expr_weight(e) <= 12):
                 for l in loads:
                     self._replace(later, l, copy.deepcopy(e) if len(loads) > 1 else e)
@@ -1266,7 +1622,7 @@ class FuncCanon(object):
                 continue
             tgt = blk[j]
             names, heap = _reads(e)
-            impure = _has_call(e)
+            impure = _has_effect(e)
             ok = True
             # statements in between
             for s in blk[i + 1:j]:
@@ -1751,6 +2107,44 @@ class Inliner(object):
             blk[i:i + 1] = new
             fc.update(fresh)
             return True
+        # v = h(...) ; if v: return v      with h returning either None (at its very end) or a value that cannot be falsy:
+        # the helper's body takes the place of both statements, its value-returns becoming returns of the caller
+        if isinstance(st, ast.Assign) and len(st.targets) == 1 and isinstance(st.targets[0], ast.Name) and st.value is holder and i + 1 < len(blk):
+            v = st.targets[0].id
+            nxt = blk[i + 1]
+            t = nxt.test if isinstance(nxt, ast.If) else None
+            by_truth = isinstance(t, ast.Name) and t.id == v
+            by_none = isinstance(t, ast.Compare) and len(t.ops) == 1 and isinstance(t.ops[0], ast.IsNot) and isinstance(t.left, ast.Name) and t.left.id == v \
+                and isinstance(t.comparators[0], ast.Constant) and t.comparators[0].value is None
+            if (by_truth or by_none) and not nxt.orelse and len(nxt.body) == 1 and isinstance(nxt.body[0], ast.Return) and isinstance(nxt.body[0].value, ast.Name) and nxt.body[0].value.id == v:
+                pairs = 0
+                for bb in _all_blocks(caller):
+                    for k in range(len(bb) - 1):
+                        a_, b_ = bb[k], bb[k + 1]
+                        if isinstance(a_, ast.Assign) and len(a_.targets) == 1 and isinstance(a_.targets[0], ast.Name) and a_.targets[0].id == v and isinstance(b_, ast.If) \
+                                and _dump(b_.test) == _dump(t) and not b_.orelse and len(b_.body) == 1 and isinstance(b_.body[0], ast.Return) and isinstance(b_.body[0].value, ast.Name) and b_.body[0].value.id == v:
+                            pairs += 1
+                nloads = sum(1 for n, _ins in _fn_nodes(caller) if isinstance(n, ast.Name) and n.id == v and isinstance(n.ctx, ast.Load))
+                rets = [n for n in ast.walk(ast.Module(body=body, type_ignores=[])) if isinstance(n, ast.Return)]
+
+                def none_ret(r):
+                    return r.value is None or (isinstance(r.value, ast.Constant) and r.value.value is None)
+
+                def sure(r):
+                    e = r.value
+                    return (isinstance(e, ast.Tuple) and e.elts and not any(isinstance(x, ast.Starred) for x in e.elts)) or \
+                        (isinstance(e, ast.Constant) and e.value is not None and (by_none or bool(e.value)))
+                _tail_returns_to_breaks(body, none_ret)
+                rets = [n for n in ast.walk(ast.Module(body=body, type_ignores=[])) if isinstance(n, ast.Return)]
+                nones = [r for r in rets if none_ret(r)]
+                tail_ok = all(r is body[-1] for r in nones) and (bool(nones) or not always_leaves_function(body))
+                nested_defs = any(isinstance(n, (ast.FunctionDef, ast.AsyncFunctionDef, ast.Lambda)) for b_ in body for n in ast.walk(b_))
+                if nloads == 2 * pairs and tail_ok and all(none_ret(r) or sure(r) for r in rets) and not nested_defs and v not in _names_captured(caller):
+                    new = pre + [b_ for b_ in body if not (isinstance(b_, ast.Return) and none_ret(b_))]
+                    blk[i:i + 2] = new
+                    fc.update(fresh)
+                    self.stats["OPTRET"] = self.stats.get("OPTRET", 0) + 1
+                    return True
         ret = tag + "ret"
         used = not (isinstance(st, ast.Expr) and st.value is holder)
         try:
@@ -1816,6 +2210,28 @@ class Inliner(object):
             if isinstance(st, ast.ClassDef):
                 new = keep(st.body, st.name)
                 st.body[:] = new or [ast.Pass()]
+
+
+def _tail_returns_to_breaks(body, is_none_ret):
+    """In a helper whose last statement is (a `with` around) a loop without `else`, a `return None` directly inside that loop
+    does what `break` does: nothing follows the loop."""
+    if not body:
+        return
+    last = body[-1]
+    if isinstance(last, (ast.With, ast.AsyncWith)):
+        _tail_returns_to_breaks(last.body, is_none_ret)
+        return
+    if isinstance(last, (ast.While, ast.For, ast.AsyncFor)) and not last.orelse:
+        def walk(stmts):
+            for k, st in enumerate(stmts):
+                if isinstance(st, ast.Return) and is_none_ret(st):
+                    stmts[k] = ast.copy_location(ast.Break(), st)
+                elif isinstance(st, ast.If):
+                    walk(st.body)
+                    walk(st.orelse)
+                elif isinstance(st, (ast.With, ast.AsyncWith)):
+                    walk(st.body)
+        walk(last.body)
 
 
 def _simple_generator(fn):
@@ -2082,19 +2498,40 @@ def canonicalise(tree, modname, known, stats=None, log=None):
                 out[m.name] = ps if "staticmethod" in decs else ps[1:]
         return out
 
+    def attr_types(cls):
+        """self.X = C(...) for a package class C, everywhere X is assigned in the class: X is a C."""
+        seen = {}
+        for m in cls.body:
+            if isinstance(m, (ast.FunctionDef, ast.AsyncFunctionDef)) and m.args.args:
+                selfn = m.args.args[0].arg
+                for n in ast.walk(m):
+                    if isinstance(n, ast.Assign):
+                        for t in n.targets:
+                            for x in ast.walk(t):
+                                if isinstance(x, ast.Attribute) and isinstance(x.ctx, ast.Store) and isinstance(x.value, ast.Name) and x.value.id == selfn:
+                                    v = n.value if (len(n.targets) == 1 and x is t) else None
+                                    c = v.func.id if isinstance(v, ast.Call) and isinstance(v.func, ast.Name) and v.func.id in CLASS_METHODS else None
+                                    seen.setdefault(x.attr, set()).add(c)
+                    elif isinstance(n, (ast.AugAssign, ast.AnnAssign, ast.Delete, ast.For, ast.With)):
+                        for x in ast.walk(n):
+                            if isinstance(x, ast.Attribute) and isinstance(x.ctx, (ast.Store, ast.Del)) and isinstance(x.value, ast.Name) and x.value.id == selfn:
+                                seen.setdefault(x.attr, set()).add(None)
+        return {a: next(iter(cs)) for a, cs in seen.items() if len(cs) == 1 and None not in cs}
+
     def each_function():
         for st in tree.body:
             if isinstance(st, (ast.FunctionDef, ast.AsyncFunctionDef)):
-                yield st, {}
+                yield st, {}, {}
             elif isinstance(st, ast.ClassDef):
                 mt = method_table(st)
+                at = attr_types(st)
                 for m in st.body:
                     if isinstance(m, (ast.FunctionDef, ast.AsyncFunctionDef)):
-                        yield m, mt
+                        yield m, mt, at
 
     def normalise():
-        for fn, mt in each_function():
-            fc = FuncCanon(fn, modconsts, stats, mt)
+        for fn, mt, at in each_function():
+            fc = FuncCanon(fn, modconsts, stats, mt, at)
             fc.fresh = _fresh_registry(fn)
             try:
                 fc.run()
@@ -2136,6 +2573,8 @@ if __name__ == "__main__":
         print("# renamed:", r, file=sys.stderr)
     SIGS.clear()
     SIGS.update(build_signatures(trees.values()))
+    CLASS_METHODS.clear()
+    CLASS_METHODS.update(build_class_methods(trees.values()))
     canonicalise(t, modname, KNOWN, st, lg)
     want = sys.argv[3:]
     for node in ast.walk(t):
